@@ -60,7 +60,7 @@ theorem load_chunked (cfg : LoaderCfg) (alloc : Nat → Nat) (cs : List Bytes) :
 
 /-- … in particular a saved image delivered one byte at a time -/
 example : loadVia loaderCfg exAlloc ((save exArena).map (fun b => [b])) = load loaderCfg exAlloc (save exArena) := by
-  rw [load_chunked]; congr 1; simp
+  rw [load_chunked]; congr 1
 
 /-- the hypotheses of the round trip are satisfiable: the example arena, loaded at 1 MiB-spaced addresses -/
 example : ∃ a', load loaderCfg exAlloc (save exArena) = .ok a' ∧ abs a' = abs exArena :=
